@@ -46,11 +46,14 @@ Record site := { s_fn : fn; s_ord : nat; s_handlers : list (list cls * guard * a
 Inductive ckind :=
 | KRecvStub | KSend | KLoads | KLoadsCall | KDumps | KMethod | KValidate
 | KHandshake | KHandleRequest | KClientDisconnect | KDenyConnection | KJob | KEvents | KHandleConnection | KSendExc
+| KFormatExc        (* a statement inside an except clause that formats the caught (peer-influenced) exception eagerly:
+                      "..." % x, str(x), f"{x}" ... — a raise point for exceptions whose __str__ raises *)
 | KHousekeeping.   (* Daemon._housekeeping(): item-stream cleanup + the user's housekeeping hook *)
 
 (* the [a_idx]-th call of kind [a_kind] in function [a_fn] (source order); [a_site] is the innermost site whose
    protected body contains the call (a call inside an except/finally/else block is not protected by that try) *)
-Record anchor := { a_fn : fn; a_kind : ckind; a_idx : nat; a_site : option nat }.
+(* [a_handler]: the site in one of whose except clauses the call stands (innermost), if any *)
+Record anchor := { a_fn : fn; a_kind : ckind; a_idx : nat; a_site : option nat; a_handler : option nat }.
 
 (* the class tests in Daemon.handleRequest's catch-all:
      if not isinstance(xv, rr_never): if not oneway: if isinstance(xv, rr_always) or not isinstance(xv, rr_unless): reply
@@ -73,6 +76,6 @@ Definition ckind_eqb (a b : ckind) : bool :=
   | KRecvStub, KRecvStub | KSend, KSend | KLoads, KLoads | KLoadsCall, KLoadsCall | KDumps, KDumps | KMethod, KMethod
   | KValidate, KValidate | KHandshake, KHandshake | KHandleRequest, KHandleRequest
   | KClientDisconnect, KClientDisconnect | KDenyConnection, KDenyConnection | KJob, KJob | KEvents, KEvents
-  | KHandleConnection, KHandleConnection | KSendExc, KSendExc | KHousekeeping, KHousekeeping => true
+  | KHandleConnection, KHandleConnection | KSendExc, KSendExc | KHousekeeping, KHousekeeping | KFormatExc, KFormatExc => true
   | _, _ => false
   end.
